@@ -591,6 +591,32 @@ PROPS["C13"] = dict(
     note="Model-store based (bounded); stub fidelity is guarded by replaying counterexamples and sampled paths on the real CLI + SQLite.",
 )
 
+PROPS["C10"] = dict(
+    _ca,
+    runs={
+        "quick": [dict(_ca, harness="VerifHarness_C10_quick", reach=["crashed-file", "crashed-all", "crashed-none", "no-crash"], validate=16)],
+        "thorough": [dict(_ca, harness="VerifHarness_C10_thorough", reach=["crashed-file", "crashed-all", "crashed-none", "no-crash"], validate=24)],
+    },
+    bounds={
+        "quick": "directories of 1..2 files x 1..2 statements, --tx-mode {file, all, none}; the index of the store event at which the process dies "
+                 "(transaction begin, statement execution, revision write, commit) is a symbolic integer over the whole run; then the same command is run again",
+        "thorough": "same with up to 3 files",
+    },
+    assumptions=[
+        "a crash is modelled from the database's point of view: the event at the crash index and everything after it has no effect and the open "
+        "transaction is rolled back (equivalent to process death for the stored state)",
+        "engine side: real migrateApplyRun / tx multiplexer / Executor on the transactional model store through the same function substitutions as C13",
+        "native validation and replay: the real command on a real SQLite file opened through an event-counting database/sql driver that kills the "
+        "'process' at the same event index (harness/cmdapi/zz_verif_crash.go)",
+    ],
+    outside="per-file txmode directives under a crash, SQLite-specific commit behaviour (foreign-key toggling, deferred violations), torn writes below "
+            "the SQL level, other dialects' implicit commits, crashes inside the revision-table migration",
+    claim="For every shape, transaction mode and crash event within the bounds: the surviving revision table never records a statement whose effect is "
+          "not in the journal, in file and all modes no file is half applied, and re-running the same command completes with every statement present "
+          "exactly once (file, all) or at least once with at most the single in-flight statement twice (none).",
+    note="Model-store based and bounded; fidelity guarded by executing sampled paths and all counterexamples on the real CLI + SQLite with the crash driver.",
+)
+
 NOT_APPLICABLE = {
     "C01": "needs a real SQLite engine executing the planned SQL and pragma-based inspection; neither cgo code nor SQLite's DDL "
            "semantics can be encoded by an SSA-level symbolic executor, and a hand-written catalogue model would verify the model, not Atlas "
